@@ -24,7 +24,17 @@ Section Session.
   Variable k0 : K.                 (* crypto.AuthKey{} *)
 
   Inductive handler := HRegular | HCdn.
-  Record notif := mkNotif { n_h : handler; n_dc : Z; n_key : K; n_perm : K; n_salt : Z }.
+  (* [n_dc] is cfg.ThisDC as the SERVER reported it -- all the code sees.  [n_conn] (the DC of
+     the connection the notification really came from) and [n_pfs] (the connection runs with
+     PFS) are ghost fields: no definition below reads them; the theorems use them to say
+     "a connection to that same DC" and "permanent key under PFS". *)
+  Record notif := mkNotif { n_h : handler; n_dc : Z; n_conn : Z; n_key : K; n_perm : K; n_salt : Z; n_pfs : bool }.
+  (* the server reports its own DC *)
+  Definition honest (n : notif) : Prop := n_dc n = n_conn n.
+  (* environment fact (mtproto/conn.go session(), options.go: PermKey := Key when PFS is enabled
+     and only Key is given; the exchange fills permKey before the first notification): a PFS
+     connection notifies with a non-zero PermKey *)
+  Definition pfs_has_perm (n : notif) : Prop := n_pfs n = true -> kzero (n_perm n) = false.
   Record sess := mkSess { s_dc : Z; s_key : K; s_salt : Z }.
 
   Inductive event :=
